@@ -132,6 +132,10 @@ func main() {
 	r := hx.Rng(*seed, 0)
 	fail := func(clause, sig, what string, ops interface{}) {
 		run.Violate(hx.Violation{Property: "C18", Clause: clause, Signature: sig, What: what, Ops: ops})
+		if clause == "instantiate_table" {
+			// the execute step of the report -> schedule -> deliver -> execute loop: the loop model (C01) assumes this table
+			run.Violate(hx.Violation{Property: "C01", Clause: "execute_step", Signature: sig, What: what, Ops: ops})
+		}
 	}
 
 	// (A) report construction: SendNodeHostInfo is a function of the NodeHost info it is given and of what Drummer advertises
@@ -404,6 +408,12 @@ func runScenario(d *scripted, dAddr string, cfg *pb.Config, fail func(clause, si
 		d.mu.Unlock()
 	}
 	step := func(name string) { run.Count("case:scenario_" + name) }
+	// one row of the launch / join / restore decision table, as observed on the real NodeHost
+	inst := func(join, restore, has, started bool) {
+		run.OpLine(J{"op": "inst", "join": join, "restore": restore, "has": has})
+		run.OutLine(fmt.Sprintf("inst started=%v", started))
+		run.Count("case:instantiate_row")
+	}
 	ids := []uint64{1, 2, 3}
 	addrs := []string{A.Addr, B.Addr, C.Addr}
 	// 1. launch
@@ -413,6 +423,7 @@ func runScenario(d *scripted, dAddr string, cfg *pb.Config, fail func(clause, si
 		round(h, true)
 	}
 	step("launch")
+	inst(false, false, false, wait(func() bool { return info(A) != nil }))
 	if !wait(func() bool { return cci(A) > 0 && members(A) == "[1 2 3]" }) {
 		fail("instantiate_table", "launch-no-effect", "launch requests did not start a shard with the zipped peers: members "+members(A), nil)
 		return
@@ -448,7 +459,9 @@ func runScenario(d *scripted, dAddr string, cfg *pb.Config, fail func(clause, si
 		InstantiateReplicaId: 4, RaftAddress: D.Addr, Join: true, AppName: "kvtest", Config: cfg})
 	round(D, false)
 	step("join")
-	if !wait(func() bool { return info(D) != nil && info(D).ReplicaID == 4 }) {
+	joined := wait(func() bool { return info(D) != nil && info(D).ReplicaID == 4 })
+	inst(true, false, false, joined)
+	if !joined {
 		fail("instantiate_table", "join-no-effect", "a join request did not start the replica", nil)
 		return
 	}
@@ -508,7 +521,9 @@ func runScenario(d *scripted, dAddr string, cfg *pb.Config, fail func(clause, si
 		InstantiateReplicaId: 2, RaftAddress: B.Addr, Restore: true, AppName: "kvtest", Config: cfg})
 	round(B, false)
 	step("restore")
-	if !wait(func() bool { return info(B) != nil && info(B).ReplicaID == 2 }) {
+	restored := wait(func() bool { return info(B) != nil && info(B).ReplicaID == 2 })
+	inst(false, true, true, restored)
+	if !restored {
 		fail("instantiate_table", "restore-no-effect", "a restore request did not restart the replica from its data", nil)
 	}
 	// 7. restore for a replica without data: refused
@@ -517,8 +532,28 @@ func runScenario(d *scripted, dAddr string, cfg *pb.Config, fail func(clause, si
 	round(C, false)
 	time.Sleep(300 * time.Millisecond)
 	step("restore_without_data")
+	inst(false, true, false, info(C) != nil)
 	if info(C) != nil {
 		fail("instantiate_table", "restore-without-data", "a restore request for a replica without data started a replica", nil)
+	}
+	// 8. the joined replica's host restarts before Drummer saw the replica: Drummer resends the same join request
+	// (shardRepair.createRequired), which has to start the replica from its data
+	ddir, daddr := D.Dir, D.Addr
+	D.dc.Stop()
+	D.NH.Close()
+	nd := nhx.ReopenHost(ddir, daddr, 5)
+	D.Host = nd
+	D.dc = client.NewDrummerClient(nd.NH)
+	m5 := []uint64{1, 2, 4}
+	a5 := []string{A.Addr, B.Addr, D.Addr}
+	set(D, &pb.NodeHostRequest{Change: &pb.Request{Type: pb.Request_CREATE, ShardId: sid, Members: m5}, ReplicaIdList: m5, AddressList: a5,
+		InstantiateReplicaId: 4, RaftAddress: D.Addr, Join: true, AppName: "kvtest", Config: cfg})
+	round(D, false)
+	step("join_again_after_restart")
+	rejoined := wait(func() bool { return info(D) != nil && info(D).ReplicaID == 4 })
+	inst(true, false, true, rejoined)
+	if !rejoined {
+		fail("instantiate_table", "join-after-restart-no-effect", "a join request resent to a restarted NodeHost that already holds the replica's data did not start the replica", nil)
 	}
 }
 
